@@ -482,9 +482,92 @@ def rule_drive_number_range(prog, fixture=False):
     return r
 
 
+# ---------------------------------------------------------------- R-C16-6
+def rule_show_config_covers_all(prog, fixture=False):
+    r = RuleResult("R-C16-6", "--show-config lists every attached drive: on every path to the listing loop its upper "
+                   "limit has been raised to the highest occupied drive number (or the table is known to be empty) - "
+                   "not decided from how many drives there are", floor=0 if fixture else 1)
+    for fn in prog.functions.values():
+        if not fn.qn.endswith("StorageConfiguration::show_drive_configuration"):
+            continue
+        loops = [n for n in fn.walk() if n.get("k") in ("DoStmt", "WhileStmt", "ForStmt", "CXXForRangeStmt")]
+        if len(loops) != 1:
+            r.undecided.append("%s: expected one listing loop, found %d" % (fn.qn, len(loops)))
+            continue
+        lp = loops[0]
+        key = "%s::%s::limit" % (fn.relfile(), fn.qn)
+        if lp["k"] == "CXXForRangeStmt":
+            rng = lp["c"][lp["parts"]["range"]]
+            ok = any(x.get("k") == "MemberExpr" and x.get("n") == "drives_" for x in walk(rng))
+            r.add(key, fn.loc(lp), ok, "iterates over the drive table itself" if ok else "the listing does not walk the drive table")
+            continue
+        cn = strip_all(lp["c"][-1] if lp["k"] == "DoStmt" else lp["c"][lp["parts"]["cond"]])
+        lim = None
+        if cn is not None and cn.get("k") in ("CXXOperatorCallExpr", "BinaryOperator") and cn.get("op") in ("<", "<=", "!="):
+            ops = cn["c"][1:] if cn["k"] == "CXXOperatorCallExpr" else cn["c"]
+            for o in ops:
+                o = strip_all(o)
+                if o is not None and o.get("k") == "DeclRefExpr" and o.get("dk") == "Var" and not any(
+                        x.get("k") in ("UnaryOperator", "CXXMemberCallExpr") and any(y.get("k") == "DeclRefExpr" and y.get("d") == o.get("d") for y in walk(x))
+                        and (x.get("op") in ("++", "--") or (strip(x["c"][0]) or {}).get("n") in ("postincrement", "next"))
+                        for x in walk(lp)):
+                    lim = o
+        if lim is None:
+            r.undecided.append("%s: cannot identify the loop limit" % fn.qn)
+            continue
+
+        def highest_key(e):
+            # drives_.rbegin()->first, possibly inside std::max(...)
+            return any(x.get("k") == "MemberExpr" and x.get("n") == "first" and
+                       any(y.get("k") == "CXXMemberCallExpr" and (strip(y["c"][0]) or {}).get("n") in ("rbegin", "crbegin")
+                           for y in walk(x)) for x in walk(e))
+
+        def transfer(x):
+            tgt = rhs = None
+            if x.get("k") == "CXXOperatorCallExpr" and x.get("op") == "=" and len(x["c"]) == 3:
+                tgt, rhs = strip_all(x["c"][1]), x["c"][2]
+            elif x.get("k") == "BinaryOperator" and x.get("op") == "=":
+                tgt, rhs = strip_all(x["c"][0]), x["c"][1]
+            elif x.get("k") == "DeclStmt":
+                for v in x.get("c", []):
+                    if v.get("k") == "VarDecl" and v.get("d") == lim.get("d"):
+                        return bool(v.get("c") and highest_key(v["c"][0]))
+            if tgt is not None and tgt.get("k") == "DeclRefExpr" and tgt.get("d") == lim.get("d"):
+                return highest_key(rhs)
+            return None
+        g = Guards(fn)
+
+        def edge_gen(p_, s_):
+            for k_ in g.edge_facts.get((p_, s_), ()):
+                f = g.rep.get(k_)
+                if f is not None and f[0] == "T" and f[2] is True:
+                    a = strip_all(f[1])
+                    if a is not None and a.get("k") == "CXXMemberCallExpr" and (strip(a["c"][0]) or {}).get("n") == "empty" and \
+                            any(y.get("k") == "MemberExpr" and y.get("n") == "drives_" for y in walk(a)):
+                        return True
+            return False
+        at = flow.must_hold_at(fn, transfer, edge_gen)
+        body = lp["c"][0] if lp["k"] == "DoStmt" else lp["c"][lp["parts"]["body"]]
+        probe = None
+        for x in walk(body):
+            if x["i"] in fn.where():
+                probe = x
+                break
+        st = at(probe) if probe is not None else None
+        if st is None:
+            r.undecided.append("%s: cannot place the listing loop in the CFG" % fn.qn)
+            continue
+        r.add(key, fn.loc(lp), bool(st), "the limit is the highest occupied number whenever the table is not empty" if st else
+              "on some path the listing loop runs with a limit that was not raised to the highest occupied drive "
+              "number although the table may be non-empty: a drive above the default range is read by commands but "
+              "missing from --show-config")
+    return r
+
+
 def run(ctx):
     prog = ctx.prog("dfs", "N")
-    return [rule_tables(prog), rule_sequence_check(prog), rule_lookups(prog), rule_lowest_free(prog), rule_drive_number_range(prog)]
+    return [rule_tables(prog), rule_sequence_check(prog), rule_lookups(prog), rule_lowest_free(prog), rule_drive_number_range(prog),
+            rule_show_config_covers_all(prog)]
 
 
 SELFTESTS = [
